@@ -47,6 +47,11 @@ OBJ = [(0, "hit"), (1, "hit"), (3, "hit"), (1, "hold"), (2, "tail")]
 GROUPS_B = [g for n in (1, 2) for g in itertools.combinations(range(len(OBJ)), n)]
 
 
+# second use with another key count: 7-key objects (columns 4..6 in use), run after 4-key work in the same process
+OBJ7 = [(0, "hit"), (5, "hit"), (1, "hit"), (6, "hit"), (4, "hold")]
+GROUPS_7 = [g for n in (1, 2) for g in itertools.combinations(range(len(OBJ7)), n)]
+
+
 def bound(tier, seed):
     return dict(
         A=dict(max_notes=3 if tier == "quick" else 4, columns=list(COLS), times=list(TIMES), kinds=["hit", "hold 100"], v=list(VS), h=[str(h) for h in HS], avoid_jack=[True, False], include_tails=[True, False]),
@@ -78,6 +83,7 @@ def roots(tier, seed):
     rs = [dict(part="E")]
     rs += [dict(part="A", start=s, stop=min(na, s + CH_A)) for s in range(0, na, CH_A)]
     rs += [dict(part="B", start=s, stop=min(nb, s + CH_B)) for s in range(0, nb, CH_B)]
+    rs += [dict(part="B7", first=g) for g in range(len(GROUPS_7))]
     return rs
 
 
@@ -88,6 +94,9 @@ def explore(root, tier, ctx):
     if root["part"] == "E":
         for keys in (4, 7):
             check_expansions(keys, ctx)
+        return
+    if root["part"] == "B7":
+        check_combos7(root["first"], ctx)
         return
     if root["part"] == "A":
         key = ("A", tier)
@@ -115,6 +124,8 @@ def replay(case, ctx):
         check_group([tuple(n) for n in case["notes"]], case["tails"], case["v"], case["h"], case["aj"], ctx)
     elif case["part"] == "B":
         check_combos(case["seq"], case.get("tier", "thorough"), ctx, only=case.get("filter"))
+    elif case["part"] == "B7":
+        check_combos7(case["first"], ctx)
     else:
         check_expansions(case["keys"], ctx)
 
@@ -456,6 +467,64 @@ def check_combos(seq, tier, ctx, only=None):
                 exp = ref_combinations(ref_groups, tsize, r)
                 exp = sorted(p for s in exp for p in zip(s[:-1], s[1:]))
                 ctx.check("template.exact", got == exp, site=dict(part="B", template=lab.split("(")[0]), case=case, observed=dict(extra=[g for g in got if g not in exp][:6], missing=[e for e in exp if e not in got][:6]), expected=dict(n=len(exp)))
+
+
+def check_combos7(first, ctx):
+    """Second use with another key count: after a 4-key filter has been built and used in this process, 7-key
+    filters (columns 4..6 in use) over every 2-group sequence starting with group `first` report exactly the
+    allowed sequences.  Self-contained (the 4-key warm-up is part of the case), so it replays alone."""
+    from reamber.algorithms.pattern import Pattern
+    from reamber.algorithms.pattern.combos import PtnCombo
+    from reamber.algorithms.pattern.filters import PtnFilterCombo
+
+    T = type_classes()
+    O = PtnFilterCombo.Option
+    case0 = dict(part="B7", first=first)
+    # warm-up: 4-key filters of sizes 2 and 3
+    ctx.transition(2)
+    for base in ([[0, 1]], [[0, 1, 2]]):
+        g4 = Pattern([0, 1, 2][: len(base[0])], [0.0, 100.0, 200.0][: len(base[0])], [T["hit"]] * len(base[0])).group(0, None, False)
+        r4 = PtnCombo(g4).combinations(size=len(base[0]), combo_filter=PtnFilterCombo.create(base, keys=4, options=O.REPEAT).filter)
+        ctx.check("reuse.warmup", sum(len(a) for a in r4) == 1, site=dict(part="B7"), case=case0, observed=sum(len(a) for a in r4), expected=1)
+    bases = [[[0, 5]], [[5, 0]], [[1, 1]], [[1, 6]], [[0, 4]], [[6, 6]], [[0, 5], [4, 1]]]
+    for second in range(len(GROUPS_7)):
+        seq = [first, second]
+        cols, offs, types, ref_groups = [], [], [], []
+        for gi, g in enumerate(seq):
+            rg = []
+            for oi in GROUPS_7[g]:
+                c, tg = OBJ7[oi]
+                cols.append(c)
+                offs.append(100.0 * gi)
+                types.append(T[tg])
+                rg.append((c, 100.0 * gi, T[tg]))
+            ref_groups.append(rg)
+        ctx.transition()
+        pc = PtnCombo(Pattern(cols, offs, types).group(0, None, False))
+        for base in bases:
+            for rep, hm, vm in ((0, 0, 0), (1, 0, 0), (0, 1, 0), (1, 1, 1)):
+                for exc in (False, True):
+                    opt = rep * O.REPEAT | hm * O.HMIRROR | vm * O.VMIRROR
+                    lab = f"combo{base}/{opt}/{exc}/keys7"
+                    case = dict(case0, seq=seq, filter=lab)
+                    site = dict(part="B7", filters=["combo"], size=2, keys=7)
+                    ctx.transition()
+                    ctx.case()
+                    key = ("7", lab)
+                    if key not in _FILTERS:
+                        _FILTERS[key] = PtnFilterCombo.create(base, keys=7, options=opt, exclude=exc).filter
+                    try:
+                        res = pc.combinations(size=2, combo_filter=_FILTERS[key])
+                        got = sorted(tuple((int(x["column"]), float(x["offset"]), x["type"].__name__) for x in row) for ar in res for row in ar)
+                    except Exception as e:
+                        ctx.check("combos.raises", False, site=dict(site, exc=type(e).__name__), case=case, observed=f"{type(e).__name__}: {e}"[:300], expected="combinations")
+                        continue
+                    ref = dict(combo=(ref_combo(base, 7, rep, hm, vm), exc))
+                    exp = ref_combinations(ref_groups, 2, ref)
+                    total = len(ref_combinations(ref_groups, 2, {}))
+                    ctx.state(("B7", tuple(seq), lab), nontrivial=0 < len(exp) < total)
+                    ctx.outcome(got)
+                    ctx.check("combos.exact", got == exp, site=site, case=case, observed=dict(extra=[g for g in got if g not in exp][:6], missing=[e for e in exp if e not in got][:6], n=len(got)), expected=dict(n=len(exp)))
 
 
 def templates(size):
